@@ -586,7 +586,8 @@ def horizontal_diffusion_step_filter(
     A function that accepts a state and returns a filtered state.
   """
   eigenvalues = grid.laplacian_eigenvalues
-  scale = dt / (tau * abs(eigenvalues[-1]) ** order)
+  # the largest eigenvalue; the last entry is zero padding on padded layouts.
+  scale = dt / (tau * np.max(np.abs(eigenvalues)) ** order)
   filter_fn = filtering.horizontal_diffusion_filter(grid, scale, order)
   return runge_kutta_step_filter(filter_fn)
 
